@@ -31,6 +31,9 @@ def rand_settings(rng, version, tclk_mode):
             childs.append(e)
     chan = rng.randint(11, 26)
     mask = zt.Channels.from_channel_list(sorted(set([chan] + [rng.randint(11, 26) for _ in range(rng.randint(0, 3))])))
+    if rng.random() < 0.3:
+        # a network that was moved to a channel outside the mask it was formed with: legal, and to be kept as it is
+        mask = zt.Channels.from_channel_list(sorted(set(c for c in [rng.randint(11, 26) for _ in range(rng.randint(1, 3))] if c != chan)) or [11 if chan != 11 else 12])
     tclk = WELL_KNOWN if tclk_mode == "wellknown" else bytes(rng.getrandbits(8) for _ in range(16))
     stack_specific = {}
     if rng.random() < 0.5:
@@ -115,6 +118,13 @@ def oracle(version, nv3, ni, node, o):
         gc = sorted((bytes(c.serialize()), int(L.nwk_addresses[c])) for c in L.children)
         if wc != gc:
             return (f"child table: wrote {len(wc)} children, read back {len(gc)}", "children")
+    if o["store"].nv3 and node.ieee != zt.EUI64.UNKNOWN:
+        # (the store has the rewritable token only where the protocol version has the token commands: v9+)
+        # the coordinator address supplied is the trust centre's: where the NCP can take it, it is what is read back
+        if o["node"].ieee != node.ieee:
+            return (f"coordinator address: wrote {node.ieee}, read back {o['node'].ieee}", "ieee")
+        if L.tc_link_key.partner_ieee != node.ieee:
+            return (f"trust-centre link key partner: wrote {node.ieee}, read back {L.tc_link_key.partner_ieee}", "ieee")
     # ---- the security state sent to the NCP
     sec = o["sec"]
     B = t.EmberInitialSecurityBitmask
@@ -179,6 +189,14 @@ def cases(ctx):
                 mode = "wellknown" if i % 3 else "custom"
                 ni, node = rand_settings(rng, v, mode)
                 prior = rand_settings(rng, v, "wellknown") if i % 2 else None
+                if i % 6 == 5:
+                    # the same backup restored twice in a row (a retried restore), with a known coordinator address
+                    import copy
+                    import zigpy.types as zt
+
+                    if node.ieee == zt.EUI64.UNKNOWN:
+                        node.ieee = zt.EUI64.deserialize(bytes(rng.getrandbits(8) for _ in range(8)))[0]
+                    prior = (copy.deepcopy(ni), copy.deepcopy(node))
                 if prior is not None and i % 4 == 1:
                     prior[0].network_key.tx_counter = rng.randint(1, 1 << 31)  # a used stick, then a backup with a fresh counter
                     ni.network_key.tx_counter = 0
@@ -221,7 +239,7 @@ def run(ctx):
         if a != b:
             ctx.corr_diff("write / read-back model and the real application over the NCP store differ", {"line": ln}, a, b)
     ctx.cov["rule"] = (f"{ctx.n(6, 40)} random settings per protocol version 4..14 and per capability (rewritable EUI64 token or not): PAN/extended PAN, channel and mask, update ID, network key with sequence and frame counter, "
-                       "frame counters including 0, a factory-fresh NCP or one that already holds an earlier network (frame counter, keys, children), well-known or custom trust-centre link key with or without a stored hashed form, 0..5 link keys, 0..4 children with/without NWK addresses; write then read back through the real application and handlers")
+                       "channel masks with and without the current channel, frame counters including 0, the same backup restored twice, a factory-fresh NCP or one that already holds an earlier network (frame counter, keys, children), well-known or custom trust-centre link key with or without a stored hashed form, 0..5 link keys, 0..4 children with/without NWK addresses; write then read back through the real application and handlers")
     ctx.exhaustive = False
 
 
